@@ -183,6 +183,34 @@ func (w *Workspace) GenerateOne(p *Prog, oneInvocation bool) {
 	}
 }
 
+// GenerateTogether runs ONE CLI invocation over the declaration files of two
+// programs (different packages), from the workspace root.
+func (w *Workspace) GenerateTogether(a, b *Prog) {
+	var args []string
+	for _, p := range []*Prog{a, b} {
+		p.Gen = nil
+		p.GenOK = true
+		for _, f := range declFilesWithInjectors(p.Spec) {
+			args = append(args, filepath.Join("progs", p.Spec.Name, f))
+		}
+	}
+	r := base.Cmd{Dir: w.Root, Name: w.CLI, Args: args, Timeout: 5 * time.Minute}.Run()
+	for _, p := range []*Prog{a, b} {
+		p.Gen = append(p.Gen, GenResult{Exit: r.Exit, Stderr: r.Stderr, Files: args, Dur: r.Dur})
+		if r.Exit != 0 {
+			p.GenOK = false
+		}
+		for _, f := range declFilesWithInjectors(p.Spec) {
+			if bs, err := os.ReadFile(filepath.Join(p.Dir, BandName(f))); err == nil {
+				p.Band[BandName(f)] = string(bs)
+			}
+		}
+		if p.Reg != "" && p.GenOK {
+			base.WriteFile(filepath.Join(p.Dir, "reg.go"), p.Reg)
+		}
+	}
+}
+
 var rePkgHdr = regexp.MustCompile(`(?m)^# (\S+)`)
 
 // buildPkgs compiles the program packages; returns name -> compiler output
